@@ -37,10 +37,10 @@ def isRepeater (t : Tok) : Bool := match t.tok with | .repeater _ _ => true | _ 
 def isLiteral (t : Tok) : Bool := match t.tok with | .literal _ => true | _ => false
 def isElementNameTok (t : Tok) : Bool :=
   match t.tok with | .literal _ | .repeaterNumber .. | .repeaterPlaceholder => true | _ => false
-/-- `'A' <= token.value[0] <= 'Z'` — IndexError on an empty literal -/
+/-- `bool(token.value) and 'A' <= token.value[0] <= 'Z'` -/
 def isCapitalizedLiteral (t : Tok) : PM Bool :=
   match t.tok with
-  | .literal [] => .error (.internal "IndexError")
+  | .literal [] => .ok false
   | .literal (x :: _) => .ok (65 ≤ x && x ≤ 90)
   | _ => .ok false
 
